@@ -146,6 +146,9 @@ type Scenario struct {
 	Init      func(w *World) // after client construction, before the first step
 	MaxConns  int
 	Burst     bool // the broker sends the whole inbound script right after CONNACK
+	Mute      func(p *Packet) bool // the broker consumes these packets without reacting
+	Hostile   [][]byte             // byte strings the broker may send once (one per execution)
+	HostileOK func(w *World) bool
 	Key       func(w *World) string // extra state for the pruning key
 	StepCheck func(w *World)        // invariant evaluated at every quiescent state
 }
@@ -189,6 +192,8 @@ type World struct {
 	nDial      int
 	crashSnaps []crashSnap
 	deliveries []*Delivery
+	hostileSent bool
+	hostileIdx  int
 }
 
 type crashSnap struct {
@@ -643,6 +648,18 @@ func (w *World) menu() []alt {
 			break // the oldest only
 		}
 	}
+	if len(w.scn.Hostile) > 0 && !w.hostileSent {
+		if c := w.liveConn(); c != nil && c.bk.connected && (w.scn.HostileOK == nil || w.scn.HostileOK(w)) {
+			for i, raw := range w.scn.Hostile {
+				menu = append(menu, alt{label: fmt.Sprintf("hostile #%d %x", i, trunc(raw)), cost: Cost{F: 1}, do: func() {
+					w.hostileSent = true
+					w.hostileIdx = i
+					w.ev(Event{K: "bk-hostile", C: c.id, N: i})
+					w.bk.send(c, raw)
+				}})
+			}
+		}
+	}
 	if f.Crash && w.gen < len(w.scn.Gens) && w.allow("crash") {
 		menu = append(menu, alt{label: "crash", cost: Cost{C: 1}, do: w.crash})
 	}
@@ -707,6 +724,10 @@ func (w *World) stateKey() uint64 {
 				h = mix(h, "W")
 			}
 		}
+	}
+	if w.hostileSent {
+		h = mix(h, "H")
+		h ^= uint64(w.hostileIdx) << 8
 	}
 	h = mix(h, w.bk.summary())
 	h ^= uint64(w.bk.nextIn)
